@@ -35,6 +35,7 @@ Final == /\ Is("Final") /\ fit # NoFit /\ ~final /\ final' = TRUE /\ l' = l + 1 
          /\ \A t \in 1..fit.trials : Ev.means[Ev.optimum + 1] <= Ev.means[t]   \* smallest mean validation error (ranks);
                                                                               \* the property leaves ties open (the code takes the first)
          /\ Ev.statsErrOK /\ Ev.statsLossOK /\ Ev.predSumOK
+         /\ Ev.evalOK                                    \* learner_t::evaluate of the final model = errors / losses of its predictions
          /\ (fit.model = "gboost" => Ev.avgOK)
 Next == Reset \/ Fit \/ Slot \/ Final
 Spec == Init /\ [][Next]_vars
